@@ -197,6 +197,14 @@ func judgeText(c Case, w *vkit.W) {
 				w.Fail(c, "invalid-text-accepted", fmt.Sprintf("%s(%q, rule=%d) = %v; the text is not a UUID in the accepted forms", path, text, c.Rule, got))
 			case got.Higher != v.hi || got.Lower != v.lo:
 				w.Fail(c, "wrong-bits", fmt.Sprintf("%s(%q) = {%#x, %#x}, the digits say {%#x, %#x}", path, text, got.Higher, got.Lower, v.hi, v.lo))
+			default:
+				// the ID that came out of the parser a moment ago is written back: the text form is exact whatever the input looked like
+				want := format(got.Higher, got.Lower)
+				sb, _ := uu.DefaultFormatter(nil, got, 0)
+				ub, _ := uu.DefaultFormatter(nil, got, uu.FormatURN)
+				if s, u := string(sb), string(ub); s != want || u != "urn:uuid:"+want {
+					w.Fail(c, "text-after-parse-not-canonical", fmt.Sprintf("%s(%q) accepted; the ID then renders as %q and %q, want %q", path, text, s, u, want))
+				}
 			}
 			return
 		}
@@ -294,6 +302,20 @@ func judgeID(c Case, w *vkit.W) {
 			w.Fail(c, "formatter-error", err.Error())
 		}
 		out(fmt.Sprintf("DefaultFormatter(\"x=\" with spare capacity %d, URN)", spare), string(bu), "x="+urn)
+	}
+	// caller buffers that already hold what looks like part of the text: the prefix, another UUID, a hyphen
+	for _, pre := range []string{"urn:uuid:", "see urn:uuid:", "URN:UUID:", "urn:", plain, urn, plain[:8] + "-", "-"} {
+		for _, f := range []uu.Format{0, uu.FormatURN} {
+			want := pre + plain
+			if f == uu.FormatURN {
+				want = pre + urn
+			}
+			got, err := uu.DefaultFormatter([]byte(pre), id, f)
+			if err != nil {
+				w.Fail(c, "formatter-error", err.Error())
+			}
+			out(fmt.Sprintf("DefaultFormatter(buffer holding %q, format %d)", pre, int(f)), string(got), want)
+		}
 	}
 	mt, err := id.MarshalText()
 	if err != nil {
